@@ -6,6 +6,7 @@ package main
 
 import (
 	"fmt"
+	"go/constant"
 	"go/token"
 	"go/types"
 	"strings"
@@ -130,7 +131,40 @@ func checkIndicesRep(fn *ssa.Function) string {
 		return "unexpected signature"
 	}
 	idx, rep := fn.Params[0], fn.Params[1]
-	isRep := func(v ssa.Value) bool { return stripConvert(v) == ssa.Value(rep) }
+	// lin evaluates v as a*rep + b (integer conversions of the level are transparent)
+	var lin func(v ssa.Value, d int) (a, b int64, ok bool)
+	lin = func(v ssa.Value, d int) (int64, int64, bool) {
+		if d > 8 {
+			return 0, 0, false
+		}
+		switch x := v.(type) {
+		case *ssa.Parameter:
+			if x == rep {
+				return 1, 0, true
+			}
+		case *ssa.Convert:
+			return lin(x.X, d+1)
+		case *ssa.Const:
+			if x.Value != nil && x.Value.Kind() == constant.Int {
+				k, _ := constant.Int64Val(x.Value)
+				return 0, k, true
+			}
+		case *ssa.BinOp:
+			a1, b1, ok1 := lin(x.X, d+1)
+			a2, b2, ok2 := lin(x.Y, d+1)
+			if ok1 && ok2 {
+				switch x.Op {
+				case token.ADD:
+					return a1 + a2, b1 + b2, true
+				case token.SUB:
+					return a1 - a2, b1 - b2, true
+				}
+			}
+		}
+		return 0, 0, false
+	}
+	isRep := func(v ssa.Value) bool { a, b, ok := lin(v, 0); return ok && a == 1 && b == 0 }
+	isRepMinus1 := func(v ssa.Value) bool { a, b, ok := lin(v, 0); return ok && a == 1 && b == -1 }
 	positive := func(iff *ssa.If, truth bool) bool {
 		return nonZeroTest(iff.Cond, truth, func(v ssa.Value) bool { return v == ssa.Value(rep) })
 	}
@@ -151,8 +185,7 @@ func checkIndicesRep(fn *ssa.Function) string {
 				ld, ok := bo.X.(*ssa.UnOp)
 				if ok && ld.Op == token.MUL {
 					if ia2, ok := ld.X.(*ssa.IndexAddr); ok && ia2.X == ssa.Value(idx) && symExpr(ia2.Index, 0) == symExpr(ia.Index, 0) {
-						sub, ok := ia.Index.(*ssa.BinOp)
-						if ok && sub.Op == token.SUB && isRep(sub.X) && constIs(sub.Y, 1) {
+						if isRepMinus1(ia.Index) {
 							if guarded(b, positive, 0) {
 								incOK = true
 							} else {
